@@ -335,13 +335,51 @@ func TestVerifC03QuicCrypto(t *testing.T) {
 	for i, nr := 0, k.N(6000, 160000); i < nr; i++ {
 		emit(vfC03HostileFrames(rng))
 	}
-	// big frames: many maximal CRYPTO frames in one payload (allocation caps)
-	for i := 0; i < 20; i++ {
-		var big []byte
-		for j := 0; j < 1+i%4; j++ {
-			big = append(big, vfC03CryptoFrame(uint64(j)*1000, 1000, vfC03Fill(rng, 2, 1000), 0)...)
+	// aggregate: every frame is small and valid, the SUM (or the number) of frames is what is hostile:
+	// totals around the 256 KiB payload cap, 1 MiB, thousands of 0/1-byte frames, all frames at the
+	// same offset, a contiguous run that starts just below the cap; in order, reversed, shuffled
+	type agg struct {
+		n, size int
+		start   uint64
+		same    bool
+	}
+	aggs := []agg{{262, 1000, 0, false}, {263, 1000, 0, false}, {256, 1024, 0, false}, {257, 1024, 0, false}, {255, 1028, 0, false}, {400, 1024, 0, false},
+		{64, 4096, 0, false}, {65, 4096, 0, false}, {5000, 1, 0, false}, {8000, 0, 0, false}, {3000, 0, 7, false}, {300, 1000, 0, true}, {2000, 100, 5, true},
+		{10, 1000, maxCryptoPayloadLen - 5000, false}, {10, 1000, maxCryptoPayloadLen - 10000, false}, {2, 1, maxCryptoPayloadLen - 1, false}, {3, 1, 1<<62 - 3, false},
+		{50, 1000, 0, false}, {1000, 50, 0, false}, {9000, 1, 0, false}}
+	for ai, a := range aggs {
+		frames := make([][]byte, a.n)
+		off := a.start
+		for j := range frames {
+			frames[j] = vfC03CryptoFrame(off, uint64(a.size), vfC03Fill(rng, 3, a.size), 0)
+			if !a.same {
+				off += uint64(a.size)
+			}
 		}
-		r.Do(entryFrames, big)
+		for oi := 0; oi < 3; oi++ {
+			order := make([]int, a.n)
+			for j := range order {
+				order[j] = []int{j, a.n - 1 - j, j}[oi]
+			}
+			if oi == 2 {
+				rng.Shuffle(a.n, func(x, y int) { order[x], order[y] = order[y], order[x] })
+			}
+			var stream []byte
+			for _, j := range order {
+				stream = append(stream, frames[j]...)
+				if oi == 2 && j%7 == 0 {
+					stream = append(stream, 0x00, 0x01) // PADDING, PING in between
+				}
+			}
+			r.Do(entryFrames, stream)
+			k.Count("ev_aggregate_frame_streams", 1)
+			if len(stream) <= 60000 { // fits a UDP datagram: also through the real decryption
+				r.Do(entrySealed, stream)
+			}
+		}
+		if ai == 0 {
+			k.Sample(map[string]any{"aggregate": "262 contiguous CRYPTO frames of 1000 bytes (sum 262000 < 256 KiB cap), in order / reversed / shuffled"})
+		}
 	}
 	vfC03QUICCanary(r, entrySealed, rng, 0)
 	vfC03QUICCanary(r, entrySealed, rng, 1)
